@@ -10,6 +10,7 @@ pub mod iter32;
 pub mod lsb0;
 pub mod multi;
 pub mod ops32;
+pub mod tcodec;
 pub mod treemap;
 pub mod ub;
 
@@ -117,7 +118,7 @@ pub fn show_opt<T: std::fmt::Display>(o: Option<T>) -> String {
 pub type HResult = Option<String>;
 
 fn dispatch(st: &mut State, toks: &[&str]) -> String {
-    let families: [fn(&mut State, &[&str]) -> HResult; 8] = [
+    let families: [fn(&mut State, &[&str]) -> HResult; 9] = [
         ops32::handle,
         algebra::handle,
         iter32::handle,
@@ -125,6 +126,7 @@ fn dispatch(st: &mut State, toks: &[&str]) -> String {
         multi::handle,
         treemap::handle,
         lsb0::handle,
+        tcodec::handle,
         ub::handle,
     ];
     for f in families {
